@@ -1302,7 +1302,7 @@ func init() {
 		ID:          "C20",
 		Level:       "exploration",
 		Race:        true,
-		Rule:        "all workers are built with -race (GORACE halt_on_error=0, reports collected from the log files and de-duplicated by the functions on top of both stacks; any report is a violation). Workloads, each compared with its sequential twin: codec (8-32 goroutines x Write / WriteUncompressed / Copy / String on one profile, plus a merged profile and its compaction serialized at the same time; bytes must equal the sequential ones), web (4-11 clients mixing /top /peek /flamegraph /source /disasm /download / with /saveconfig and /deleteconfig against one server while 2 writers flip an option through SetVariableDefault; every response must equal a sequential response for one of the option values written, Config menu excluded), fetch (2-300 sources fetched in parallel through the gated fetcher with a shared Binutils object tool; two completion orders must agree, and the same profiles served over HTTP to pprof's own fetcher, ungated, with per-source seconds= parameters must give the same report), temp (32 goroutines x 4 and 6 processes x 12 temporary files in one directory: names distinct, contents intact), tools (6-11 goroutines x 8 SourceLine calls on one object file behind an interposed symbolizer that echoes its question, while SetTools / SetFastSymbolization / Open race), firstweb (a fresh child process whose first 4-11 web requests are released together by a barrier, each compared with the same request repeated alone), tools-addr2line (4-9 goroutines x 8 SourceLine calls through one interposed GNU-addr2line process that answers one of the lookups with a diagnostic line: every call returns an answer that pairs with its question, nothing, or an error). options (3-10 assignments to different options made at the same moment by as many goroutines, 40 trials, while a reader polls the configuration: every assignment must be in effect afterwards), setters (SetFastSymbolization issued while SetTools probes an interposed slow objdump: the final state must be the one of either serial order). A case that does not finish within 2 min in 3 of 3 fresh worker processes is a deadlock (violation, goroutine dump attached). Every workload records call/return stamps from one clock and reports the number of really overlapping operation pairs. non-trivial = every case; distinct = case",
+		Rule:        "all workers are built with -race (GORACE halt_on_error=0, reports collected from the log files and de-duplicated by the functions on top of both stacks; any report is a violation). Workloads, each compared with its sequential twin: codec (8-32 goroutines x Write / WriteUncompressed / Copy / String on one profile, plus a merged profile and its compaction serialized at the same time; bytes must equal the sequential ones), web (4-11 clients mixing /top /peek /flamegraph /source /disasm /download / with /saveconfig and /deleteconfig against one server while 2 writers flip an option through SetVariableDefault; every response must equal a sequential response for one of the option values written, Config menu excluded), fetch (2-300 sources fetched in parallel through the gated fetcher with a shared Binutils object tool; two completion orders must agree, and the same profiles served over HTTP to pprof's own fetcher, ungated, with per-source seconds= parameters must give the same report), temp (32 goroutines x 4 and 6 processes x 12 temporary files in one directory: names distinct, contents intact), tools (6-11 goroutines x 8 SourceLine calls on one object file behind an interposed symbolizer that echoes its question, while SetTools / SetFastSymbolization / Open race), firstweb (a fresh child process whose first 4-11 web requests are released together by a barrier, each compared with the same request repeated alone), tools-addr2line (4-9 goroutines x 8 SourceLine calls through one interposed GNU-addr2line process that answers one of the lookups with a diagnostic line: every call returns an answer that pairs with its question, nothing, or an error). options (3-10 assignments to different options made at the same moment by as many goroutines, 40 trials, while a reader polls the configuration: every assignment must be in effect afterwards), setters (SetFastSymbolization issued while SetTools probes an interposed slow objdump: the final state must be the one of either serial order). A case that does not finish within 2 min in 3 of 3 fresh worker processes is a deadlock (violation, goroutine dump attached). Every workload records call/return stamps from one clock and reports the number of really overlapping operation pairs. Further parts: tls (parallel https fetches through pprof's own transport, unsequenced), tools-nm (nm-backed symbol lookups on one object file from several goroutines), saves (remote profiles saved while other creators make files of the same numbered sequence: nothing overwritten), stderr (the real executable with many URL sources: every message line intact), stdui (pprof's terminal UI printing from eight goroutines: lines never interleave), perf (2-6 perf.data sources converted by a stand-in perf_to_profile at the same time: each source ends up with its own conversion), fetch with base lists next to the sources (up to 300 + 300). non-trivial = every case; distinct = case",
 		Assumptions: []string{"the race detector only sees accesses that happen in these runs", "several goroutines symbolizing through one nm-backed object file is exercised by part tools-nm (pprof itself does not do it; the object file interface is otherwise safe for it)"},
 		Parts: []harness.Part{
 			{Name: "codec", Quick: 60, Thor: 3000, Run: runCodec},
